@@ -442,6 +442,10 @@ if __name__ == "__main__":
 
     _root = tempfile.mkdtemp(prefix="gaftools-verif-", dir="/dev/shm" if os.path.isdir("/dev/shm") and os.access("/dev/shm", os.W_OK) else None)
     os.environ["VERIF_SCRATCH_ROOT"] = _root
+    # temporary files of the code under test go below the scratch root too (removed at the end)
+    os.makedirs(os.path.join(_root, "tmp"), exist_ok=True)
+    os.environ["TMPDIR"] = os.path.join(_root, "tmp")
+    tempfile.tempdir = os.path.join(_root, "tmp")
     try:
         rc = main()
     except SystemExit:
